@@ -1,6 +1,7 @@
 /-
-  Model/LitCounter.lean — internal/utils/literals.go: process-global atomic counters naming function / struct /
-  interface / enum literals (`__func_lit__N` …), drawn by the per-module parser goroutines (C14).
+  Model/LitCounter.lean — internal/utils/literals.go: process-global atomic counters naming struct / interface / enum
+  literals — and, before the repair of F39, function literals (`__func_lit__N`) — drawn by the per-module parser goroutines (C14);
+  function literals are now numbered per file (`assignPerFile`).
   A schedule is the order in which the goroutines perform their atomic increments.  Core-only.
 -/
 namespace FerretVerif.LitCounter
@@ -15,5 +16,16 @@ def assign : Nat → Sched → List (Nat × Nat)
 
 /-- the ids module `m` received, in its own program order -/
 def idsOf (m : Nat) (s : Sched) : List Nat := ((assign 0 s).filter (·.1 == m)).map (·.2)
+
+/-! ### function literals after the repair of F39: one counter per source file (parser.go `funcLitCount`) -/
+
+/-- ids handed out when every module draws from its own counter: the draw gets 1 + the number of earlier draws of the SAME module -/
+def assignPerFile : List (Nat × Nat) → Sched → List (Nat × Nat)
+  | _, [] => []
+  | seen, m :: rest =>
+    let k := (seen.filter (·.1 == m)).length
+    (m, k + 1) :: assignPerFile ((m, k + 1) :: seen) rest
+
+def idsOfPerFile (m : Nat) (s : Sched) : List Nat := ((assignPerFile [] s).filter (·.1 == m)).map (·.2)
 
 end FerretVerif.LitCounter
